@@ -2,6 +2,8 @@ package dnsmsg
 
 import (
 	"sync"
+
+	"github.com/IrineSistiana/mosproxy/internal/verifhook"
 )
 
 type Question struct {
@@ -70,10 +72,18 @@ var qsPool = sync.Pool{
 }
 
 func NewQuestion() *Question {
+	if verifhook.On {
+		q := qsPool.Get().(*Question)
+		verifhook.Ev("obj.get", "question", q)
+		return q
+	}
 	return qsPool.Get().(*Question)
 }
 
 func ReleaseQuestion(q *Question) {
+	if verifhook.On {
+		verifhook.Ev("obj.release", "question", q)
+	}
 	if q.Name != nil {
 		ReleaseName(q.Name)
 	}
